@@ -579,7 +579,16 @@ func (h *c04Harness) stress(res *hx.Result, rng *hx.Rng, links []*c04Link, ngor,
 			if n > 1 {
 				res.Fail("failed-call-ran-more-than-once", fmt.Sprintf("%s ended with %v and its method body ran %d times", desc, r.err, n))
 			}
-			if !r.cancel && !strings.HasPrefix(r.arg, "ERR") {
+			// an error outcome is a legitimate single outcome: cancelled, refused by the method, or
+			// dropped by the server's full consumer queue (endPoint.dispatch answers such a Call
+			// with an error; the body must then not have run)
+			blocked := r.err.Error() == net.ErrConsumerBlocked.Error()
+			if blocked {
+				res.Dist("outcome:consumer-blocked")
+				if n != 0 {
+					res.Fail("dropped-call-ran", fmt.Sprintf("%s was refused with %q but its method body ran %d time(s)", desc, r.err, n))
+				}
+			} else if !r.cancel && !strings.HasPrefix(r.arg, "ERR") {
 				res.Fail("call-failed-unexpectedly", fmt.Sprintf("%s ended with %v", desc, r.err))
 			}
 		}
